@@ -90,6 +90,8 @@ def enabled(m, cfg, out):
             if uf == "add":
                 for a in tv[:2] or [("t", tgt)]:
                     sts.append(("out", tgt, uf, a, ("c", "c1"), mask))
+                if cfg.get("outs_const"):
+                    sts.append(("out", tgt, uf, ("c", "c0"), ("c", "c1"), mask))
             else:
                 for a in tv[:2] or [("t", tgt)]:
                     sts.append(("out", tgt, uf, a, ("t", tgt) if cfg.get("out_self", True) else ("c", "c2"), mask))
